@@ -9,13 +9,13 @@ W=$(mktemp -d /tmp/seedval.XXXXXX); rmdir $W
 git -C /repo worktree add -q --detach $W HEAD || exit 2
 trap 'git -C /repo worktree remove --force $W' EXIT
 cd $W
-if ! git apply --check $D/patch.diff 2>/dev/null; then echo "PATCH DOES NOT APPLY at /repo HEAD"; git apply --3way $D/patch.diff 2>&1 | tail -2; fi
+if ! git apply --check $D/patch.diff 2>/dev/null; then echo "NOTE: patch does not apply verbatim at /repo HEAD (will try --3way)"; fi
 DEMO=$(ls $D/*_test.go | head -1)
 if [ -z "$NOTESTS" ]; then
   cp $DEMO $W/$PKG/
   echo "--- demo WITHOUT change:"; (cd $W/$PKG && go test -vet=off -count=1 -run 'TestSeeded' . 2>&1 | tail -3)
 fi
-git apply $D/patch.diff 2>/dev/null || git apply --3way $D/patch.diff
+git apply $D/patch.diff 2>/dev/null || git apply --3way $D/patch.diff || { echo "PATCH CANNOT BE APPLIED"; exit 1; }
 go build ./... || { echo "BUILD FAILS"; exit 1; }
 if [ -z "$NOTESTS" ]; then
   echo "--- demo WITH change:"; (cd $W/$PKG && go test -vet=off -count=1 -run 'TestSeeded' . 2>&1 | tail -3)
